@@ -283,3 +283,25 @@ impl Interpreter {
         self.rng = Rng::new(seed);
     }
 }
+
+#[cfg(abasic_verif)]
+impl Interpreter {
+    /// Canonical text of the whole runtime state (everything except the
+    /// string cache and the not-yet-taken output), `|`-separated.
+    pub fn verif_snapshot(&self) -> String {
+        format!(
+            "state={:?}|{}|vars={}|arrays={}|rng={}|input={}|flags={}{}",
+            self.state,
+            self.program.verif_snapshot(),
+            self.variables.verif_snapshot(),
+            self.arrays.verif_snapshot(),
+            self.rng.verif_seed(),
+            match &self.input {
+                None => "none".to_string(),
+                Some(s) => format!("S{}", crate::verif::esc(s)),
+            },
+            if self.enable_warnings { "w" } else { "-" },
+            if self.enable_tracing { "t" } else { "-" },
+        )
+    }
+}
